@@ -28,8 +28,15 @@ def check(run):
     for gi, defs in enumerate(geoms):
         impl = vlib.need_harness("hist_h", cfg, defs)
         hs = hists if not defs else short
-        outs, crash = histcheck.run_histories(impl, hs, ndocs=2)
-        for seed, h, o in zip(seeds, hs, outs):
+        # in the default geometry the second half of the histories passes every string operand through a different C++
+        # type at every operation (kind 7 of the harness: C14's subject, but the tree has to come out the same)
+        half = len(hs) // 2 if not defs else len(hs)
+        outs, crash = histcheck.run_histories(impl, hs[:half], ndocs=2)
+        kinds = [0] * half
+        if half < len(hs):
+            outs2, crash2 = histcheck.run_histories(impl, hs[half:], ndocs=2, kind=7)
+            outs, crash, kinds = outs + outs2, crash or crash2, kinds + [7] * (len(hs) - half)
+        for seed, h, o, kind in zip(seeds, hs, outs, kinds):
             ops, exp = histcheck.split_history(h)
             run.count((gi, seed))
             if o == "<crash>":
@@ -39,15 +46,15 @@ def check(run):
                 continue      # hit a capacity limit of the tiny geometry: not this property's concern
             k = histcheck.first_divergence(exp, steps)
             if k is not None:
-                oracle_fail.append((cfg, f"HRUN 2 0 - {' ;; '.join(h.split(' ;; ')[:k + 1])} ;; ", f"step {k} ({ops[k] if k < len(ops) else '?'}): {exp[k][:300] if k < len(exp) else ''}",
+                oracle_fail.append((cfg, f"HRUN 2 {kind} - {' ;; '.join(h.split(' ;; ')[:k + 1])} ;; ", f"step {k} ({ops[k] if k < len(ops) else '?'}): {exp[k][:300] if k < len(exp) else ''}",
                                     (steps[k][0] if k < len(steps) else "missing")[:300] + f" [geometry {defs}]"))
             if "leaked=0" not in trailer or "MISUSE" in trailer or "NOT-REUSABLE" in trailer or "afterclear=0" not in trailer:
-                oracle_fail.append((cfg, f"HRUN 2 0 - {h}", "all memory returned, no misuse, document reusable", trailer))
+                oracle_fail.append((cfg, f"HRUN 2 {kind} - {h}", "all memory returned, no misuse, document reusable", trailer))
         run.cov["disagreements_checked"] += len(hs)
         if crash:
             k = outs.index("<crash>") if "<crash>" in outs else 0
             run.violation(f"C04: library crashed on a history (geometry {defs}): {crash[:200]}",
-                          dict(kind="history", cfg=cfg, defines=defs, harness_src="hist_h", lines=[f"HRUN 2 0 - {hs[k]}"], observed=crash[-3000:]))
+                          dict(kind="history", cfg=cfg, defines=defs, harness_src="hist_h", lines=[f"HRUN 2 {kinds[k]} - {hs[k]}"], observed=crash[-3000:]))
     run.sample(dict(history=" ;; ".join(histcheck.split_history(hists[0])[0][:12]), meaning="ops on handles (0,1 = document roots); after each op all documents and all live handles are dumped"))
     # assignment from an aliasing source
     impl = vlib.need_harness("hist_h", cfg)
